@@ -9,15 +9,19 @@ Quantifiers: any number of workers, any input list, any `worker_extra_pending_in
 function for the idle worker, any pre-run deaths, and **every** sequence of adversary events
 (worker answers / dies with or without end marker / the pool reads ready queues in any batches).
 
-Configuration of the theorems (`Plain`): retry on, results returned, no user `enqueue_fn`
-(the `enqueue_fn` livelock is a known finding - `C07_livelock_witness`).
+Configurations: the *safety* clauses (`C07_exact`, `C07_no_internal_error`, `C07_conservation`,
+`C07_fifo_agreement`) are proved for `Retrying`: retry on, results returned and **any** user `enqueue_fn`
+(an arbitrary refusal function `c.refuse`; an accepting `enqueue_fn` is assumed to enqueue to the worker it
+was given, like `worker.enqueue`). The *liveness* clauses (termination, no deadlock, never an internal error
+from the re-dispatch loop) are proved for `Plain` = `Retrying` + no `enqueue_fn`: with a refusing function
+the re-dispatch loop of `handle_death` can spin for ever - known finding, `C07_livelock_witness`.
 -/
 namespace PwVerif.C07
 open PwVerif.Pool
 
 /-- **C07 exactly once.** Whenever the run returns normally, its result list is a permutation of the
     inputs: one result for every input, none missing, none duplicated. -/
-theorem C07_exact (c : Cfg) (hc : Plain c) (pick : List Nat → Option Nat) (hp : PickOK pick)
+theorem C07_exact (c : Cfg) (hc : Retrying c) (pick : List Nat → Option Nat) (hp : PickOK pick)
     (n : Nat) (src : List Inp) (pre evs : List Ev) (ret : List Inp)
     (h : outcome (runEvents c pick (start c pick n src pre) evs) = .returned ret) :
     ret.Perm src := by
@@ -74,14 +78,14 @@ theorem C07_exact (c : Cfg) (hc : Plain c) (pick : List Nat → Option Nat) (hp 
 
 /-- **C07 no internal error.** No schedule makes the run pop from an empty pending list
     (the `IndexError` of the code before the fix). -/
-theorem C07_no_internal_error (c : Cfg) (hc : Plain c) (pick : List Nat → Option Nat) (hp : PickOK pick)
+theorem C07_no_internal_error (c : Cfg) (hc : Retrying c) (pick : List Nat → Option Nat) (hp : PickOK pick)
     (n : Nat) (src : List Inp) (pre evs : List Ev) :
     (runEvents c pick (start c pick n src pre) evs).err ≠ some .popEmpty :=
   (inv_runEvents hc hp evs _ (inv_start hc hp n src pre)).nopop
 
 /-- Conservation at every moment of every schedule: each input is, with multiplicity, in exactly one of
     the source, the retry list, some worker's pending list, or the results. -/
-theorem C07_conservation (c : Cfg) (hc : Plain c) (pick : List Nat → Option Nat) (hp : PickOK pick)
+theorem C07_conservation (c : Cfg) (hc : Retrying c) (pick : List Nat → Option Nat) (hp : PickOK pick)
     (n : Nat) (src : List Inp) (pre evs : List Ev) (i : Inp) :
     let s := runEvents c pick (start c pick n src pre) evs
     src.count i = s.src.count i + s.retries.count i + ppwCount i s + s.ret.count i := by
@@ -90,7 +94,7 @@ theorem C07_conservation (c : Cfg) (hc : Plain c) (pick : List Nat → Option Na
 
 /-- the pending lists always agree with what the workers hold: for a worker not yet declared dead the
     pool's pending list is exactly (results waiting in its pipe) ++ (inputs it has not processed yet) -/
-theorem C07_fifo_agreement (c : Cfg) (hc : Plain c) (pick : List Nat → Option Nat) (hp : PickOK pick)
+theorem C07_fifo_agreement (c : Cfg) (hc : Retrying c) (pick : List Nat → Option Nat) (hp : PickOK pick)
     (n : Nat) (src : List Inp) (pre evs : List Ev) :
     ∀ x ∈ (runEvents c pick (start c pick n src pre) evs).ws, x.closed = false →
       x.ppw = resIn x.chan ++ x.inbox ++ x.lost :=
@@ -157,7 +161,7 @@ theorem C07_no_deadlock (c : Cfg) (hc : Plain c) (pick : List Nat → Option Nat
     (hrun : outcome (runEvents c pick (start c pick n src pre) evs) = .waiting) :
     ∃ w, effective (runEvents c pick (start c pick n src pre) evs) (.work w) = true ∨
          effective (runEvents c pick (start c pick n src pre) evs) (.poll [w]) = true := by
-  have hinv := inv_runEvents hc hp evs _ (inv_start hc hp n src pre)
+  have hinv := inv_runEvents hc.toRetrying hp evs _ (inv_start hc.toRetrying hp n src pre)
   have hq : QInv (runEvents c pick (start c pick n src pre) evs) :=
     qinv_runEvents hc (pick := pick) evs _ (qinv_start hc (pick := pick) n src pre)
   have h1 := C07_no_internal_error c hc pick hp n src pre evs
@@ -190,6 +194,13 @@ theorem C07_livelock_witness :
     outcome (runEvents { refuse := fun w i => w == 1 && i == 1 } pickFirst
       (start { refuse := fun w i => w == 1 && i == 1 } pickFirst 2 [1]) [.die 0 true, .poll [0]])
     = .internal .outOfFuel := by decide +kernel
+
+/-- non-vacuity of the `enqueue_fn` configuration: worker 1 refuses input 2, which is kept on the retry list
+    and later handed to worker 0; every input is returned once -/
+example : outcome (runEvents { refuse := fun w i => w == 1 && i == 2 } pickFirst
+      (start { refuse := fun w i => w == 1 && i == 2 } pickFirst 2 [1, 2, 3])
+      [.work 0, .poll [0], .work 0, .poll [0], .work 0, .poll [0]]) = .returned [1, 2, 3] := by
+  decide +kernel
 
 /-- non-vacuity: a run with a death that still returns everything -/
 example : outcome (runEvents {} pickFirst (start {} pickFirst 2 [1, 2, 3])
